@@ -148,6 +148,18 @@ func main() {
 	flag.Parse()
 	runtime.GOMAXPROCS(1)
 	debug.SetGCPercent(200)
+	// a worker that eats memory is an engine problem (never a verdict): stop before the OOM killer does
+	go func() {
+		var ms runtime.MemStats
+		for {
+			time.Sleep(2 * time.Second)
+			runtime.ReadMemStats(&ms)
+			if ms.HeapAlloc > 6<<30 {
+				fmt.Fprintf(os.Stderr, "harness: heap above 6 GiB (%d MiB), giving up\n", ms.HeapAlloc>>20)
+				os.Exit(3)
+			}
+		}
+	}()
 
 	c := &Ctx{Prop: *prop, Tier: *tier, Shard: *shard, NShards: *nshards, Seed: *seed,
 		counts: map[string]int64{}, keys: map[string]map[uint64]struct{}{}, viols: map[string]bool{}}
